@@ -24,4 +24,19 @@ def leb128Accept (b : List UInt8) : Option (Nat × Nat) :=
   | some (gs, k) =>
     let n := valOf gs
     if n < 2^64 ∧ leb128 n = b.take k then some (n, k) else none
+/-- Reference *classification by specification* of an arbitrary byte string, in the order a left-to-right reader
+meets the conditions: no byte without continuation bit → truncated (all `b.length` bytes are needed); otherwise the
+string ends at the first such byte, `k` bytes in; a multi-byte string whose most significant group is zero is
+non-minimal; a value of `2^64` or more does not fit. Written with `readGroups` / `valOf` only. -/
+inductive Verdict | ok (n k : Nat) | truncated (k : Nat) | nonminimal (k : Nat) | toobig (k : Nat)
+deriving DecidableEq, Repr
+def classify (b : List UInt8) : Verdict :=
+  match readGroups b with
+  | none => .truncated b.length
+  | some (gs, k) =>
+    if 1 < k ∧ gs.getLast? = some 0 then .nonminimal k
+    else if valOf gs < 2^64 then .ok (valOf gs) k else .toobig k
+/-- a whole-buffer decode accepts iff the classification is `ok` and nothing is left -/
+def acceptExact (b : List UInt8) : Option Nat :=
+  match classify b with | .ok n k => if k = b.length then some n else none | _ => none
 end Spec
